@@ -92,7 +92,8 @@ def main():
                 for d in demos:
                     shutil.copy(d, os.path.join(wt, demo_pkg))
                 runre = "^(%s)$" % "|".join(tests)
-                dr = sh(["go", "test", "-vet=off", "-count=1", "-timeout", "300s", "-run", runre, demo_pkg], cwd=wt, env=ENV)
+                racef = ["-race"] if "--race" in a else []
+                dr = sh(["go", "test", "-vet=off", "-count=1", "-timeout", "300s"] + racef + ["-run", runre, demo_pkg], cwd=wt, env=ENV)
                 res[name] = "pass" if dr.returncode == 0 else "FAIL"
                 if name == "with_change":
                     out["demo_output_with_change"] = dr.stdout[-800:]
